@@ -232,7 +232,10 @@ def cases(draw, engines):
     wrap = draw(st.booleans())  # atoms 0 and 1 further apart than half a box: the box matters for the order parameter
     p0 = [draw(st.floats(3, 5).map(lambda x: round(x, 3)))] + [draw(st.floats(3, 9).map(lambda x: round(x, 3))) for _ in range(2)]  # all atoms inside the 30 A box
     sep = draw(st.floats(17, 24) if wrap else st.floats(1.0, 6.0)).__round__(3)
-    pos = [p0, [p0[0] + sep, p0[1] + 0.5, p0[2]]] + [[draw(st.floats(5, 25).map(lambda x: round(x, 3))) for _ in range(3)] for _ in range(2)]
+    pos = [p0, [p0[0] + sep, p0[1] + 0.5, p0[2]]] 
+    # spectator atoms: never on top of each other or of atoms 0/1 (coincident atoms make the pair potential 0*inf = nan)
+    f3 = lambda lo, hi: draw(st.floats(lo, hi).map(lambda x: round(x, 3)))  # noqa: E731
+    pos += [[f3(5, 14), f3(5, 25), f3(11, 25)], [f3(16, 25), f3(5, 25), f3(11, 25)]]
     v = st.floats(-1.5, 1.5).map(lambda x: round(x, 4))
     vel = [[draw(v) for _ in range(3)] for _ in range(4)]
     vel[0][0] = draw(st.sampled_from([0.9, -0.7, 1.3]))
